@@ -275,8 +275,19 @@ func (svd SigVerificationDecorator) AnteHandle(ctx sdk.Context, tx sdk.Tx, simul
 		if err != nil {
 			return ctx, err
 		}
+		signerAddrs := sigTx.GetSigners()
+		// check that signer length, signature length and pubkey length are the same
+		if len(sigs) != len(signerAddrs) || len(pubKeys) != len(signerAddrs) {
+			return ctx, sdkerrors.ErrUnauthorized.Wrapf("invalid number of signer;  expected: %d, got %d signatures and %d pubkeys", len(signerAddrs), len(sigs), len(pubKeys))
+		}
 		for i, sig := range sigs {
 			pubKey := pubKeys[i]
+			if pubKey == nil {
+				if !simulate {
+					return ctx, sdkerrors.ErrInvalidPubKey.Wrap("pubkey is not set for create-price signer")
+				}
+				continue
+			}
 			// TODO: is it necessary to support multi-sign ?
 			data, ok := sig.Data.(*signing.SingleSignatureData)
 			if !ok {
@@ -286,7 +297,9 @@ func (svd SigVerificationDecorator) AnteHandle(ctx sdk.Context, tx sdk.Tx, simul
 			if err != nil {
 				return ctx, err
 			}
-			pubKey.VerifySignature(bytesToSign, data.Signature)
+			if !simulate && !pubKey.VerifySignature(bytesToSign, data.Signature) {
+				return ctx, sdkerrors.ErrUnauthorized.Wrap("signature verification failed for create-price message; please verify chain-id and consensus key")
+			}
 		}
 
 		return next(ctx, tx, simulate)
